@@ -447,6 +447,13 @@ func init() {
 		if tier == "debug" {
 			js = append(js, mk("c11.debugsym", rootPkg, "ZZ_C11_Manual", with(cfgParams(2, 3, 0, 0, 1, 0), "forcesym", 1), func(b *Bounds) { b.Unwind = 12 }))
 		}
+		for _, def := range []int{0, 1} {
+			js = append(js, mk(sprintf("c11.bulk.r_writing.def%d", def), rootPkg, "ZZ_C11_Bulk", cfgParams(0, 2, 0, 0, def, 0), func(b *Bounds) { b.Unwind = 12; b.MapOrders = 2 }))
+		}
+		if tier == "thorough" {
+			js = append(js, mk("c11.bulk.r_creating.def1", rootPkg, "ZZ_C11_Bulk", cfgParams(0, 1, 0, 0, 1, 0), func(b *Bounds) { b.Unwind = 12; b.MapOrders = 2 }))
+			js = append(js, mk("c11.bulk.r_custom.def0", rootPkg, "ZZ_C11_Bulk", cfgParams(0, 3, 0, 0, 0, 0), func(b *Bounds) { b.Unwind = 12; b.MapOrders = 2 }))
+		}
 		js = append(js, mk("c11.manual.norefresh", rootPkg, "ZZ_C11_Manual", cfgParams(2, 0, 0, 0, 1, 0), func(b *Bounds) { b.Unwind = 12 }))
 		j := mk("c11.canary", rootPkg, "ZZ_C11_Get", with(cfgParams(0, 2, 0, 0, 1, 0), "canary", 1), func(b *Bounds) { b.Unwind = 12 })
 		j.Canary = "c11.canary"
